@@ -82,6 +82,31 @@ def compare_with_cpython(res, pid, programs, what, extra_check=None):
                       {"kind": "impl", "input_hex": p.hex(), "pydict": pd, "strict": su, "observed": io_[:600],
                        "cpython": repr(obj)[:600], "disassembly": dis(p)[:1500],
                        "cmd": "echo '%s' | harness/go/implrun" % lines[j][:400]})
+    # the CPython machine of the model (PyVM2.qload, the specification the C06 / C02 / C09 theorems
+    # are stated against) vs CPython itself: wherever the machine answers, CPython must load the same
+    ql = C.modelrun(["qload " + p.hex() for p in programs])
+    stats.update({"pyvm2_answers": 0, "pyvm2_giveup": 0, "pyvm2_not_canonical": 0})
+    nbad = 0
+    for i, q in enumerate(ql):
+        if q == "NODIS": stats["pyvm2_not_canonical"] += 1; continue
+        if not q.startswith("ok "): stats["pyvm2_giveup"] += 1; continue
+        key = (i, "1")
+        if key not in refs:
+            try: refs[key] = R.pyload(programs[i], True)
+            except RecursionError: continue
+        ok, obj = refs[key]
+        flags = {}
+        try:
+            same = ok and R.equiv(R.parse_go(q[3:]), obj, True, flags=flags)
+        except (R.Cyclic, RecursionError):
+            continue
+        if flags.get("multi"): continue
+        stats["pyvm2_answers"] += 1
+        if not same and nbad < 3:
+            nbad += 1
+            res.violation("%s: the CPython machine of the model (PyVM2) loads %s, CPython itself %s" % (what, q[3:160], (repr(obj) if ok else "error %r" % (obj,))[:160]),
+                          {"kind": "correspondence", "theorem": "PyVM2.v (specification of C06/C02/C09)", "input_hex": programs[i].hex(),
+                           "pyvm2": q[:800], "cpython": repr(obj)[:800], "disassembly": dis(programs[i])[:1500]})
     # correspondence breaks are reported after the concrete violations the oracle found
     for p, pd, su, mo, io_ in corr[:5]:
         res.violation("correspondence: decoder model and implementation differ",
